@@ -51,13 +51,18 @@ func NewChanCaster[C chan V, V any](channel C) *ChanCaster[C, V] {
 //
 // See [ChanCaster.Add] for usage details.
 func (x *ChanCaster[C, V]) Send(value V) int {
+	verifPoint("caster.atomic.begin", x, 0)
 	if x.state.Load() == 0 {
+		verifPoint("caster.send.fast", x, 0)
 		return 0 // no receivers (fast path)
 	}
+	verifPoint("caster.send.fast", x, 1)
 
 	// prevent receivers being added while sending + order values by send call
 	x.mutex.Lock()
 	defer x.mutex.Unlock()
+	verifPoint("caster.send.locked", x, 0)
+	defer verifPoint("caster.send.unlock", x, 0)
 
 	// load our state, guard no receivers (early exit), and set tracker to the
 	// value of `maxInt32 + receivers`, using CAS to sync with negative adds
@@ -66,7 +71,9 @@ func (x *ChanCaster[C, V]) Send(value V) int {
 		receivers, tracker uint32
 	)
 	for {
+		verifPoint("caster.atomic.begin", x, 0)
 		state = x.state.Load()
+		verifPoint("caster.send.load", x, 0)
 		if state == 0 {
 			return 0 // no receivers (slow path)
 		}
@@ -80,26 +87,33 @@ func (x *ChanCaster[C, V]) Send(value V) int {
 		// attempt to set tracker to `maxInt32 + receivers`, with CAS used to
 		// synchronise with decrements of receivers
 		tracker += math.MaxInt32
+		verifPoint("caster.atomic.begin", x, 0)
 		if x.state.CompareAndSwap(state, uint64(receivers)<<32|uint64(tracker)) {
+			verifPoint("caster.send.cas", x, 1)
 			break
 		}
+		verifPoint("caster.send.cas", x, 0)
 	}
 
 	// broadcast involves sending to all receivers - with the total actually
 	// received being in range [0, receivers], due to potential decrements
 	for range receivers {
 		x.C <- value // may end up received by negative Add calls
+		verifPoint("caster.send.sent", x, 0)
 	}
 
 	// now, we can retrieve, validate, then reset the state (to 0 - all broadcast + we locked so none added)
 	// note: it should be stable - if it isn't, invariants were violated
+	verifPoint("caster.atomic.begin", x, 0)
 	state = x.state.Load()
 	tracker = uint32(state >> 32) // actually the final receivers (used as scratch)
 	if tracker > receivers ||     // receivers should be unchanged or decreased (and also lower than math.MaxInt32)
 		uint32(state) != tracker+math.MaxInt32 || // lo still exactly math.MaxInt32 more than hi
 		!x.state.CompareAndSwap(state, 0) { // failing this indicates one or more unregistered receivers
+		verifPoint("caster.send.final", x, -1)
 		panic(`bigbuff: chancaster: send: state invariant violation`)
 	}
+	verifPoint("caster.send.final", x, int(tracker))
 
 	// returns number of sends less any received by negative Add calls
 	return int(tracker)
@@ -135,16 +149,22 @@ func (x *ChanCaster[C, V]) Add(delta int) int {
 	case delta >= 0:
 		var state uint64
 		if delta == 0 {
+			verifPoint("caster.atomic.begin", x, 0)
 			state = x.state.Load() // no change
+			verifPoint("caster.add.load", x, 0)
 		} else if delta > maxReceivers {
 			panic(`bigbuff: chancaster: add: positive delta out of bounds`)
 		} else {
 			// increasing num receivers not allowed concurrently with sending
 			x.mutex.RLock()
 			defer x.mutex.RUnlock()
+			verifPoint("caster.add.rlocked", x, delta)
+			defer verifPoint("caster.add.runlock", x, 0)
 
 			// add delta to both hi and lo
+			verifPoint("caster.atomic.begin", x, 0)
 			state = x.state.Add(uint64(delta)<<32 | uint64(uint32(delta)))
+			verifPoint("caster.add.pos", x, delta)
 		}
 
 		// validate to ensure we did not overflow + sanity check invariants
@@ -164,7 +184,9 @@ func (x *ChanCaster[C, V]) Add(delta int) int {
 		delta = -delta
 
 		// note: same delta calc as above, subtracted using two's complement rules
+		verifPoint("caster.atomic.begin", x, 0)
 		state := x.state.Add(^(uint64(delta)<<32 | uint64(uint32(delta)) - 1))
+		verifPoint("caster.add.neg", x, delta)
 
 		// validate, and, if necessary, receive any channel sends that would
 		// otherwise never be received (to avoid Send hanging)
@@ -180,6 +202,7 @@ func (x *ChanCaster[C, V]) Add(delta int) int {
 				// note: receivers = tracker-maxReceivers (per the above)
 				for range delta {
 					<-x.C
+					verifPoint("caster.add.absorbed", x, 0)
 				}
 				return int(receivers) // note: already subtracted delta
 			}
